@@ -524,7 +524,11 @@ static void case_direct(Src& s, Ctx& ctx) {
     if (mode == 9 && cipher != TKIP) mode = 0;
     if (mode == 10 && cipher <= WEP104) mode = 5;
     if (mode == 4 && cipher <= WEP104) mode = 1;   // WEP protects no header field
-    Plain plain = gen_plain(s, 2292);
+    // MSDU-sized plaintexts, and in one case in 32 (taken from the configuration byte) up to the largest A-MSDU (7935 octets):
+    // CCMP then needs more than 255 counter blocks
+    const bool amsdu = (b0 & 0xf8) == 0xf8;
+    Plain plain = gen_plain(s, amsdu ? 7927 : 2292);
+    if (amsdu) ctx.label("a-msdu-sized-plaintext");
     uint64_t pn = gen_pn(s, cipher);
     KeySet k;
     k.ptk.assign(80, 0);
